@@ -43,6 +43,33 @@ pub fn new_event(operation: Operation<()>, topic: Topic) -> PipelineEvent {
     )
 }
 
+/// Task tracker type of [`Pipeline`].
+pub type PipelineTracker = crate::processor::TaskTracker<PipelineEvent, p2panda_core::Hash>;
+
+/// A [`Pipeline`] handle without the processing thread (`Pipeline::verif_detached`): the caller
+/// owns the receiving end of the channel and decides when "the pipeline" takes an event and marks
+/// it as done on `tasks`, while the real `Pipeline::process` runs on the submitting side.
+///
+/// The sender is a clone of the one inside the handle: holding a permit of it
+/// (`try_reserve_owned`) keeps a channel of capacity 1 full, so that the `send` inside
+/// `Pipeline::process` parks until the permit is dropped.
+pub fn detached_pipeline(
+    capacity: usize,
+    tasks: PipelineTracker,
+) -> (
+    Pipeline,
+    tokio::sync::mpsc::Sender<PipelineEvent>,
+    tokio::sync::mpsc::Receiver<PipelineEvent>,
+) {
+    Pipeline::verif_detached(capacity, tasks)
+}
+
+/// Topic an event was created with (lets a harness tell apart events of the same operation).
+pub fn event_topic(event: &PipelineEvent) -> Topic {
+    let args: &p2panda_stream::ingest::IngestArgs<LogId, Topic> = std::borrow::Borrow::borrow(event);
+    args.topic
+}
+
 thread_local! {
     static ENABLED: Cell<bool> = const { Cell::new(false) };
     static LAST: Cell<Option<&'static str>> = const { Cell::new(None) };
